@@ -6,7 +6,7 @@ func init() {
 		Variant{Prop: "C08", Name: "wipe-without-deleting", File: sd, Expect: "C08.c",
 			Old: "\t\t\tactualTo, _, err := s.deleteRangeRaw(ctx, from, to)\n\t\t\tif err != nil {\n\t\t\t\t// reflect the progress made", New: "\t\t\tactualTo, err := to, error(nil)\n\t\t\tif err != nil {\n\t\t\t\t// reflect the progress made"},
 		Variant{Prop: "C08", Name: "pending-fallback-removed", File: sd, Expect: "C08.b",
-			Old: "\t\tif h := s.pending.GetByHeight(height); !h.IsZero() {\n\t\t\thash, err = h.Hash(), nil\n\t\t}", New: "\t\tlog.Debugw(\"not indexed\", \"height\", height)"},
+			Old: "\t\tif h := s.pending.GetByHeight(height); !h.IsZero() {\n\t\t\thash, err = h.Hash(), nil\n\t\t} else {", New: "\t\t{"},
 		Variant{Prop: "C08", Name: "height-index-key-kept", File: sd, Expect: "C08.b",
 			Old: "\tif err := s.ds.Delete(ctx, heightKey(height)); err != nil {\n\t\treturn fmt.Errorf(\"delete height key (%d): %w\", height, err)\n\t}\n", New: ""},
 		Variant{Prop: "C08", Name: "pending-not-purged", File: sd, Expect: "C08.b",
